@@ -260,6 +260,8 @@ pub struct Scenario {
     pub seq_start: Option<Vec<VariableID>>,
     /// transaction ids known in advance (transfers played by a scripted sender): lets user primitives address them
     pub preset_ids: Vec<(usize, TransactionID)>,
+    /// transfers whose Put is fire-and-forget: the user drops the reply channel before the daemon answers
+    pub forget_puts: Vec<usize>,
 }
 
 /// A configuration that differs from `c` in every observable respect. The daemons are given the real
@@ -522,6 +524,7 @@ struct Sched {
     prim_tx: Vec<Option<tokio::sync::mpsc::Sender<UserPrimitive>>>,
     peers: HashMap<Ent, Box<dyn Peer>>,
     transfers: Vec<TransferSpec>,
+    forget_puts: Vec<usize>,
     ids: Arc<Mutex<Vec<Option<TransactionID>>>>,
     roots: Vec<String>,
     dest_seen: Vec<Option<Option<Vec<u8>>>>,
@@ -950,6 +953,13 @@ impl Sched {
                 message_to_user: vec![],
             };
             let (otx, orx) = tokio::sync::oneshot::channel();
+            if self.forget_puts.contains(&tr) {
+                // fire and forget: nobody waits for the transaction id
+                drop(orx);
+                let _ = tx.try_send(UserPrimitive::Put(req, otx));
+                self.shared.push(Ev::Put { ent: t.src, tr, id: None });
+                return;
+            }
             let _ = tx.try_send(UserPrimitive::Put(req, otx));
             let ids = self.ids.clone();
             let sh = self.shared.clone();
@@ -1173,6 +1183,7 @@ pub fn run(mut sc: Scenario, scratch: &str) -> RunLog {
             prim_tx,
             peers: std::mem::take(&mut sc.peers).into_iter().collect(),
             transfers: sc.transfers.clone(),
+            forget_puts: sc.forget_puts.clone(),
             ids: ids.clone(),
             roots: roots2.clone(),
             dest_seen: vec![],
